@@ -260,6 +260,82 @@ pub fn run(e: &Engine) {
         let c = Case { q: qstr.clone(), d, keys: k2_ref.clone(), bounds: b };
         crate::engine::guarded(|| check(&c, rec)).map_err(|f| (c.to_json(), f))
     });
+    // characters at the boundaries of the UTF-8 encoding classes (lead bytes C2, DF, E0, ED, EE, EF, F0, F4)
+    const SIGMA2: [char; 16] = ['\u{7f}', '\u{80}', '\u{7ff}', '\u{800}', '\u{fff}', '\u{1000}', '\u{d7ff}', '\u{e000}', '\u{ffff}', '\u{10000}', '\u{3ffff}', '\u{40000}', '\u{fffff}', '\u{100000}', '\u{10ffff}', '\u{10fffe}'];
+    let mut s2: Vec<String> = vec![String::new()];
+    for a in SIGMA2 {
+        s2.push(a.to_string());
+        for b in SIGMA2 {
+            s2.push([a, b].iter().collect());
+        }
+    }
+    let s2_ref = &s2;
+    e.run_enum("utf8-boundary-alphabet-q<=2-k<=2", s2.len() as u64 * 3, |idx, rec| {
+        let qstr = &s2_ref[(idx / 3) as usize];
+        let d = (idx % 3) as u32;
+        let q: Vec<char> = qstr.chars().collect();
+        let lev = match crate::engine::catch(|| Levenshtein::new(qstr, d)) {
+            Ok(Ok(l)) => l,
+            Ok(Err(err)) => return Err((json!({"q": qstr, "d": d}), Fail::new("lev-build", format!("Levenshtein::new({:?},{}) failed: {}", qstr, d, err)))),
+            Err(p) => return Err((json!({"q": qstr, "d": d}), Fail::new("panic", format!("Levenshtein::new({:?},{}) panicked: {}", qstr, d, p)))),
+        };
+        for k in s2_ref {
+            rec.eval();
+            if let Err(f) = crate::engine::guarded(|| decide(&lev, &q, d, k).map(|_| ())) {
+                let c = Case { q: qstr.clone(), d, keys: vec![k.clone()], bounds: vec![] };
+                return Err((c.to_json(), f));
+            }
+            if q.len() >= 1 && d >= 1 {
+                rec.nontrivial_by_construction();
+            }
+        }
+        rec.class("utf8_boundary_alphabet");
+        Ok(())
+    });
+    // long queries and larger distances (explicit generous state limit), and the default limit:
+    // new(q, d) must succeed exactly when the construction needs <= 10 000 states
+    e.run_prop(
+        "long-queries-and-default-limit",
+        e.tier.pick(300, 6_000),
+        || (proptest::collection::vec(prop_oneof![4 => (0usize..8).prop_map(|i| SIGMA[i]), 1 => Just('b')], 6..=14), 0u32..=4, proptest::collection::vec((0usize..14, 0usize..8, 0u8..3), 0..12)),
+        |(q, d, _)| json!({"q": q.iter().collect::<String>(), "d": d}),
+        |(q, d, edits), rec| {
+            let qstr: String = q.iter().collect();
+            let full = match Levenshtein::new_with_limit(&qstr, *d, 400_000) {
+                Ok(l) => l,
+                Err(_) => {
+                    rec.class("over_400k_states(skipped)");
+                    return Ok(());
+                }
+            };
+            let s = full.verif_num_states();
+            let dflt = Levenshtein::new(&qstr, *d);
+            vensure!(dflt.is_ok() == (s <= 10_000), "lev-default-limit", "Levenshtein::new({:?},{}) returned {} but the construction needs {} states (default limit 10000)", qstr, d, if dflt.is_ok() { "Ok" } else { "TooManyStates" }, s);
+            rec.class(if s > 10_000 { "needs_more_than_default_limit" } else { "within_default_limit" });
+            // keys: the query under a few generated edits
+            let mut keys: Vec<Vec<char>> = vec![q.clone(), vec![]];
+            let mut cur = q.clone();
+            for (pos, ch, op) in edits {
+                let p = if cur.is_empty() { 0 } else { pos % cur.len() };
+                match op {
+                    0 if !cur.is_empty() => cur[p] = SIGMA[*ch],
+                    1 => cur.insert(p, SIGMA[*ch]),
+                    _ if !cur.is_empty() => {
+                        cur.remove(p);
+                    }
+                    _ => {}
+                }
+                keys.push(cur.clone());
+            }
+            for k in keys {
+                rec.eval();
+                let ks: String = k.iter().collect();
+                decide(&full, q, *d, &ks)?;
+                rec.nontrivial(H::new().b(qstr.as_bytes()).u(*d as u64).b(ks.as_bytes()).get());
+            }
+            Ok(())
+        },
+    );
     // state limits
     e.run_enum("state-limits-0..S+2", 73 * 3, |idx, rec| {
         let qstr = &qs_ref[(idx / 3) as usize]; // the 73 queries of length <= 2
@@ -293,7 +369,7 @@ pub fn run(e: &Engine) {
         |c| c.to_json(),
         check,
     );
-    for cls in ["shared_lead_byte_pair", "limit_sufficient", "limit_exceeded"] {
+    for cls in ["shared_lead_byte_pair", "limit_sufficient", "limit_exceeded", "utf8_boundary_alphabet", "needs_more_than_default_limit", "within_default_limit"] {
         e.require_class(cls, 1);
     }
 }
